@@ -5,7 +5,7 @@
 # repository, the check runs there, and the detection log is copied back to /verif/seeded/<id>/.
 set -u
 ID="$1"; PROP="$2"; TIER="${3:-quick}"
-W=/work/seedrun
+W=${SEEDRUN_DIR:-/work/seedrun}
 mkdir -p $W
 if [ ! -d $W/repo ]; then git -C /repo worktree add -q --detach $W/repo HEAD || exit 2; fi
 git -C $W/repo checkout -q --detach "$(git -C /repo rev-parse HEAD)" 2>/dev/null
